@@ -116,6 +116,11 @@ def c11_field_plumbing(ctx, scale):
                 if '%s.%s' % (f, o) in ops: lines.append('%s.%s' % (f, o))
             if f + '.ark.from_base_prime_field_elems' in ops:
                 lines.append('%s.ark.from_base_prime_field_elems -' % f); lines.append('%s.ark.from_base_prime_field_elems 5;6' % f)
+            if f + '.ark.rand' in ops:
+                # UniformRand: rejection sampling of masked n8-byte candidates.  Short random streams, and a stuck generator (all-ones words or one
+                # repeated word for 300 candidates, then the harness's replay generator): the result is the first candidate below the modulus
+                streams = [b'', bytes(n8), bytes([255] * n8 * 300), (m.to_bytes(n8, 'little')) * 300, ((m - 1).to_bytes(n8, 'little'))] + [rng.bytes(rng.below(3 * n8)) for _ in range(3 + scale)]
+                for st in streams: lines.append('%s.ark.rand %s' % (f, st.hex() if st else '-'))
             if f + '.from_montgomery_limbs' in ops:
                 for _ in range(3):
                     L = gen.rand_field(rng, m); lines.append('%s.from_montgomery_limbs %s' % (f, ','.join('%x' % ((L >> (64 * i)) & (2**64 - 1)) for i in range(n8 // 8))))
@@ -141,6 +146,15 @@ def c11_field_plumbing(ctx, scale):
             elif op in ('ark.characteristic', 'ark.const.MODULUS'): want = limbs(m)
             elif op == 'ark.extension_degree': want = '1'
             elif op == 'ark.const.MODULUS_BIT_SIZE': want = '%x' % m.bit_length()
+            elif op == 'ark.rand':
+                buf = bytes.fromhex(t[1]) if t[1] != '-' else b''
+                st = {'pos': 0, 'x': 0x9E3779B97F4A7C15 ^ len(buf)}
+                def nxt():
+                    if st['pos'] < len(buf): st['pos'] += 1; return buf[st['pos'] - 1]
+                    x = st['x']; x ^= (x << 13) & (2**64 - 1); x ^= x >> 7; x ^= (x << 17) & (2**64 - 1); st['x'] = x; return x & 0xff
+                for _ in range(100000):
+                    v = int.from_bytes(bytes(nxt() for _ in range(n8)), 'little') & ((1 << m.bit_length()) - 1)
+                    if v < m: want = '%x' % v; break
             elif op == 'from_montgomery_limbs':
                 L = sum(int(x, 16) << (64 * i) for i, x in enumerate(t[1].split(','))); want = '%x' % (L * pow(1 << (8 * n8), -1, m) % m)
             if want is not None and o != want and o != 'UNSUPPORTED':
